@@ -9,6 +9,7 @@ import Std.Data.HashMap
 import Hx.Spec.Chk
 import Hx.Scan.Dispatch
 import Hx.Build
+import Hx.Spec.Completion
 namespace Hx
 
 /-! ### text → structure -/
@@ -490,6 +491,46 @@ def buildFlagsLine (l : String) : String :=
     s!"{l} => simd={f.simd} sse42={f.sse42} avx2={f.avx2} neon_intrinsics={f.neonIntr} providers={provs}"
   | _ => s!"BADLINE {l}"
 
+/-- `driver witness`: for an observed Partial case print the case `wit …` whose buffer is the
+original one extended by the model's completion witness (the first tail of the finite completion
+set after which the MODEL completes), or a `nowit` line saying which stated exception applies. -/
+def witnessLine (l : String) : List String :=
+  match splitArrow l with
+  | none => []
+  | some (caseLine, obsS) =>
+    let ctoks := words caseLine
+    let otoks := words obsS
+    if otoks.headD "" != "P" then [] else
+    match ctoks with
+    | ["chunk", hex] =>
+      match unhex? hex with
+      | some buf =>
+        match chunkTails.find? (fun t => (chunkObs false (buf ++ t)).st.isC) with
+        | some t => [s!"wit {buf.length} chunk {hexOf (buf ++ t)}"]
+        | none => [s!"nowit none {caseLine}"]
+      | none => []
+    | kind :: rest =>
+      match kindOfString kind with
+      | none => []
+      | some k =>
+        let (cfgS, capS, hexS) := match k, rest with
+          | .hdrs, cap :: hex :: _ => ("0", cap, hex)
+          | _, cfg :: cap :: hex :: _ => (cfg, cap, hex)
+          | _, _ => ("", "", "")
+        match cfgS.toNat?, capS.toNat?, unhex? hexS, parseObs k otoks with
+        | some cfgN, some cap, some buf, some real =>
+          let cfg := configOfBits cfgN
+          match (tailsFor k).find? (fun t => (modelObs k cfg cap (buf ++ t)).st.isC) with
+          | some t =>
+            if k == .hdrs then [s!"wit {buf.length} hdrs {cap} {hexOf (buf ++ t)}"]
+            else [s!"wit {buf.length} {kind} {cfgN} {cap} {hexOf (buf ++ t)}"]
+          | none =>
+            let why := if k == .req && badUtf8Target cfg buf (real.spans.getD 0 .none) then "badutf8"
+                       else if overCapacity cap real then "overcap" else "none"
+            [s!"nowit {why} {caseLine}"]
+        | _, _, _, _ => []
+    | [] => []
+
 def judgeLine (st : JState) (l : String) : JState × List String :=
   match splitArrow l with
   | none => (st.bump "badline", [s!"BADLINE {l}"])
@@ -522,6 +563,16 @@ def judgeLine (st : JState) (l : String) : JState × List String :=
     | "classes" :: _ => judgeScan st caseLine ctoks otoks
     | "utf8" :: _ => judgeScan st caseLine ctoks otoks
     | "info" :: _ => (st.sample "info" obsS, [])
+    | "wit" :: origLen :: rest =>
+      -- pass 2 of C11: the buffer is a Partial buffer extended by the model's witness; the real
+      -- parser must complete
+      let ok := (otoks.headD "").startsWith "C:"
+      let st := (st.bump "cases.wit").bump "nontrivial.wit"
+      let st := st.sample s!"wit.{rest.headD ""}" caseLine
+      (st, if ok then [] else [mkFail "C11" true s!"Partial was returned on the first {origLen} bytes, but the completion witness is not accepted" caseLine obsS])
+    | "nowit" :: why :: _ =>
+      let st := st.bump s!"nowit.{why}"
+      (st, if why == "none" then [mkFail "C11" true "Partial, but no tail of the finite completion set completes it and no stated exception applies (model)" caseLine obsS] else [])
     | _ => judgeBasic st caseLine ctoks otoks
 
 def modelLine (st : JState) (l : String) : JState × List String :=
